@@ -286,92 +286,15 @@ CONNECTION_HEADER_NAMES = {"header::CONNECTION", "\"proxy-connection\"", "\"keep
 
 
 def C13_4(ctx, facts):
-    f = facts.unit(facts.fn("service::http::http2::check_http2_request"))
-    ctx.touched(f)
-    is_h2 = lambda lab: version_rel(f, lab, subject=r"Connection.*::version$") == "=="
-    errs = [b for (b, i, s) in f.aggregates("client::error::Error", "InvalidMethod")]
-    ctx.floor("check_http2_request|InvalidMethod", len(errs), 1, "CONNECT rejection")
-
-    def is_connect(val):
-        def pred(lab):
-            if lab.kind != "bool" or lab.value is not val or lab.cond.kind != "call":
-                return False
-            s = lab.cond.site
-            if norm(s.name).split("::")[-1] != "eq" or "Method" not in " ".join(s.t.get("argtys") or []):
-                return False
-            consts = {str(r.desc) for a in s.args for r in f.roots(a, through_calls=False) if r.kind == "const"}
-            return any(c.endswith("Method::CONNECT") for c in consts)
-        return pred
-    for b in errs:
-        ok1, w1 = f.guarded(b, is_h2)
-        ok2, w2 = f.guarded(b, is_connect(True))
-        ctx.check(ok1 and ok2, "check_http2_request|connect-rejected", "CONNECT is rejected exactly on an HTTP/2 connection", "InvalidMethod not confined to (HTTP/2, CONNECT)", f.where(b))
-    for (a, b) in f.edges_where(is_connect(True)):
-        if not f.guarded(a, is_h2)[0]:
-            continue
-        reach = f.reach([b])
-        oks = [x for (x, i, s) in f.aggregates("Result", "Ok") if x in reach]
-        ctx.check(not oks, "check_http2_request|connect-never-ok", "a CONNECT request on HTTP/2 cannot come out Ok", "CONNECT on HTTP/2 can still be forwarded", f.where(a))
-    # version set to HTTP_2
-    vm = [c for c in f.calls() if c.matches(r"Request.*::version_mut$")]
-    wrote = False
-    for b in sorted(f.live):
-        for s in f.stmts(b):
-            if s["k"] == "assign" and s["p"]["p"] == ["*"] and s["r"]["k"] == "use":
-                v = const_of(s["r"]["o"])
-                site = f.call_defining(s["p"]["l"])
-                if v and str(v).endswith(H2) and site is not None and site.matches(r"version_mut$"):
-                    ok, w = f.guarded(b, is_h2)
-                    wrote = wrote or ok
-    ctx.check(wrote, "check_http2_request|version-set", "on an HTTP/2 connection the request version is set to HTTP_2", "request version is not set to HTTP_2 on the HTTP/2 path", f.where())
-    rem = [c for c in f.calls() if c.matches(r"HeaderMap.*::remove$")]
-    ctx.floor("check_http2_request|removes", len(rem), 2, "HeaderMap::remove calls")
-    keys = []
-    for c in rem:
-        rr = f.roots(c.args[1], through_calls=True)
-        ks = {str(r.desc) for r in rr if r.kind == "const"}
-        keys.append(ks)
-        ok, w = f.guarded(c.bb, is_h2)
-        ctx.check(ok, "check_http2_request|remove-only-h2", "headers are stripped only on an HTTP/2 connection", "headers stripped on a non-HTTP/2 connection", c.where(), f.path_desc(w))
-    ctx.check(any(any(k.endswith("header::HOST") for k in ks) for ks in keys), "check_http2_request|host-removed", "Host is removed on HTTP/2", "Host header is not removed", f.where())
-    ctx.check(any(any(k.endswith("CONNECTION_HEADERS") for k in ks) for ks in keys), "check_http2_request|connection-headers-removed", "every element of CONNECTION_HEADERS is removed (loop over the table)",
-              "the connection-specific headers table is not iterated", f.where())
-    # both removals happen on every HTTP/2 non-CONNECT path
-    for (a, b) in f.edges_where(is_connect(False)):
-        for pat, nm in ((r"header::HOST$", "host"), (r"CONNECTION_HEADERS$", "connection-headers")):
-            blocks = {c.bb for c, ks in zip(rem, keys) if any(re.search(pat, k) for k in ks)}
-            if nm == "connection-headers":
-                # the removal sits in a `for` over the table: a loop body can syntactically be skipped, the loop itself cannot
-                blocks = {x.bb for x in f.calls() if x.matches(r"IntoIterator.*::into_iter$") and
-                          any(r.kind == "const" and str(r.desc).endswith("CONNECTION_HEADERS") for r in f.roots(x.args[0], through_calls=False))}
-            ok, w = f.must_pass(b, f.returns, blocks)
-            ctx.check(ok or not blocks, "check_http2_request|always-strips-%s" % nm, "every HTTP/2 request passes the removal of %s" % nm, "an HTTP/2 request can skip the removal of %s" % nm, f.where(a), f.path_desc(w))
-    # table contents
-    tbl = None
-    for k, g in facts.fns.items():
-        if norm(k).endswith("service::http::http2::CONNECTION_HEADERS"):
-            tbl = g
-    if tbl is None:
-        ctx.missing("CONNECTION_HEADERS|body", "const CONNECTION_HEADERS not found in the facts")
-    else:
-        names = set()
-        for b in tbl.live:
-            for s in tbl.stmts(b):
-                if s["k"] == "assign":
-                    r = s["r"]
-                    ops = [r.get("o")] if r.get("o") else (r.get("ops") or [])
-                    for o in ops:
-                        v = const_of(o) if o else None
-                        if v and (str(v).startswith('"') or "header::" in str(v)):
-                            names.add(str(v).split("http::")[-1] if "header::" in str(v) else str(v))
-            t = tbl.term(b)
-            if t["k"] == "call":
-                for a in t["args"]:
-                    v = const_of(a)
-                    if v and str(v).startswith('"'):
-                        names.add(str(v))
-        ctx.check(names == CONNECTION_HEADER_NAMES, "CONNECTION_HEADERS|contents", "the table is {connection, proxy-connection, keep-alive, transfer-encoding, upgrade}",
-                  "CONNECTION_HEADERS contains %s" % sorted(names), tbl.where())
+    """What leaves the client on an HTTP/2 connection: decision table of check_http2_request (h2table.py)."""
+    import h2table
+    h2table.table(ctx, facts)
+    # the check is installed: Http2ChecksService::new wraps the inner service with exactly this function
+    import json
+    new = facts.fn("service::http::http2::Http2ChecksService::new")
+    ctx.touched(new)
+    ok = re.search(r'"fn": "[^"]*check_http2_request"', json.dumps(new.d["blocks"])) is not None
+    ctx.check(ok, "Http2ChecksService::new|installs-check", "Http2ChecksService applies check_http2_request to every request", "Http2ChecksService::new does not install check_http2_request", new.where())
 
 
 def C13_5(ctx, facts):
